@@ -6,6 +6,7 @@ import (
 	"math"
 
 	ct "github.com/google/certificate-transparency-go"
+	"github.com/google/certificate-transparency-go/x509"
 	"github.com/google/trillian"
 
 	"verif/sim/oracle"
@@ -143,7 +144,9 @@ func oracleC07(w *World, op *Op) {
 				continue
 			}
 			le, err := ct.LogEntryFromLeaf(idx, &ct.LeafEntry{LeafInput: e.LeafInput, ExtraData: e.ExtraData})
-			if err != nil {
+			// documented contract: a valid entry may come with a non-nil error when that error is non-fatal
+			// (here: an RSA key without NULL parameters in a submitted CA certificate)
+			if err != nil && (le == nil || x509.IsFatal(err)) {
 				s.Violate("entry-decode", "error", "op%03d: LogEntryFromLeaf on served entry %d (sub%d): %v", op.ID, idx, sub.ID, err)
 				return
 			}
